@@ -2,6 +2,8 @@ package checks
 
 import (
 	"fmt"
+	"os"
+	"path/filepath"
 	"sort"
 	"strings"
 	"sync"
@@ -118,4 +120,75 @@ func c13TaintIsolation(c *Ctx) {
 	}
 	wg.Wait()
 	c.R.Set("taint_isolation_histories", len(hs))
+}
+
+// c13NoCacheTool: a no-cache target whose (only) output is a bin_output, and a cached dependant that calls it through
+// $(bin :tool). History: build; build (tool runs again, gen is restored); edit the tool's input; build (gen re-executes:
+// the tool it calls changed); build (gen restored). Both load_outputs modes.
+func c13NoCacheTool(c *Ctx) {
+	grog, err := vc.BuildGrog("grog", nil)
+	if err != nil {
+		c.R.BrokenCheck("%v", err)
+		return
+	}
+	base, cleanup := scratchBase(c, "c13tool")
+	defer cleanup()
+	mk := func(v string) *hist.Source {
+		s := &hist.Source{Files: map[string]hist.File{"b/tool.in": {Content: v}}}
+		s.Targets = append(s.Targets,
+			hist.Target{Pkg: "b", Name: "tool", Tags: []string{"no-cache"}, Inputs: []string{"tool.in"}, BinOutput: "tool.sh", Command: traceStart + "\nprintf '#!/bin/sh\\necho \"made by %s\"\\n' \"$(cat tool.in)\" > tool.sh"},
+			hist.Target{Pkg: "b", Name: "gen", Deps: []string{":tool"}, Outputs: []string{"gen.txt"}, Command: traceStart + "\n$(bin :tool) > gen.txt"})
+		return s
+	}
+	for _, mode := range []string{"all", "minimal"} {
+		box, err := hist.NewBox(base)
+		if err != nil {
+			c.R.BrokenCheck("%v", err)
+			return
+		}
+		s1, s2 := mk("v1"), mk("v2")
+		s1.Materialize(box.WS(), nil)
+		args := []string{"build", "//...", "--load-outputs=" + mode}
+		type stp struct {
+			name string
+			pre  func()
+			want string // executed set
+			gen  string // expected content of gen.txt ("" = not checked: minimal mode does not materialise restored outputs)
+		}
+		steps := []stp{
+			{"build", func() {}, "//b:gen //b:tool", "made by v1\n"},
+			{"build again", func() {}, "//b:tool", ""},
+			{"edit the tool's input; build", func() { s2.Materialize(box.WS(), s1) }, "//b:gen //b:tool", "made by v2\n"},
+			{"build again", func() {}, "//b:tool", ""},
+		}
+		var history []string
+		for _, st := range steps {
+			st.pre()
+			history = append(history, st.name)
+			rr := box.Run(grog, hist.RunOpts{Args: args})
+			got := append([]string{}, rr.Started()...)
+			sort.Strings(got)
+			replay := map[string]any{"history": history, "load_outputs": mode, "executed": got, "grog_output_tail": tail(rr.Output, 500)}
+			switch {
+			case rr.Exit != 0:
+				c.R.Violate(vc.Violation{Sig: "C13:no-cache-tool:build-fails", Detail: fmt.Sprintf("history %v (load_outputs=%s): grog exited %d: %s", history, mode, rr.Exit, tail(rr.Output, 300)), Replay: replay})
+			case strings.Join(got, " ") != st.want:
+				sig := "C13:no-cache-tool:dependant-not-invalidated-although-the-tool-changed"
+				if len(got) > len(strings.Fields(st.want)) {
+					sig = "C13:dependant-or-clean-target-executed-although-nothing-changed://b:gen"
+				} else if !strings.Contains(strings.Join(got, " "), "//b:tool") {
+					sig = "C13:no-cache-target-restored-instead-of-executed://b:tool"
+				}
+				c.R.Violate(vc.Violation{Sig: sig, Detail: fmt.Sprintf("history %v (load_outputs=%s): executed %v, expected [%s] (//b:tool is tagged no-cache, its output is a bin_output that //b:gen calls)", history, mode, got, st.want), Replay: replay})
+			case st.gen != "":
+				if b, _ := os.ReadFile(filepath.Join(box.WS(), "b/gen.txt")); string(b) != st.gen {
+					c.R.Violate(vc.Violation{Sig: "C13:no-cache-tool:dependant-output-stale", Detail: fmt.Sprintf("history %v (load_outputs=%s): b/gen.txt is %q, expected %q", history, mode, b, st.gen), Replay: replay})
+				}
+			}
+			c.R.AddCounts(1, 1, 1, 1)
+			c.R.Outcome(fmt.Sprintf("no-cache-tool|%s|%s|%v", mode, st.name, got))
+			c.R.Nontrivial("no-cache-tool|" + mode + "|" + strings.Join(history, ">"))
+		}
+		box.Remove()
+	}
 }
